@@ -74,7 +74,9 @@ func (a *Application) registerTranslatorRoutes() {
 			path := pathProvider.GetAPIPath()
 			handler := a.translationHandler(trans)
 
-			a.routeRegistry.RegisterWithMethod(
+			// messages are proxied to the backends like any other proxy route: they go through the
+			// same security chain (per-client rate limit, body size limit)
+			a.routeRegistry.RegisterProxyRoute(
 				path,
 				handler,
 				name+" Messages API",
